@@ -50,9 +50,12 @@ def gen_case(rng):
       if rr < 0.2:
         val = {'ref': [rng.choice([[], ['a']]), rng.choice(targets), True]}
       elif rr < 0.3:
-        val = {'macro': rng.choice(MACROS)} if rng.random() < 0.5 else {'l': [{'macro': rng.choice(MACROS[:2])}, 1]}
-        if val.get('macro') == name or (isinstance(val.get('l'), list) and val['l'][0].get('macro') == name):
+        # a macro may only mention macros later in MACROS: definitions stay acyclic (the evaluator's fuel)
+        later = MACROS[MACROS.index(name) + 1:]
+        if not later:
           val = rng.randint(1, 9)
+        else:
+          val = {'macro': rng.choice(later)} if rng.random() < 0.5 else {'l': [{'macro': rng.choice(later)}, 1]}
       else:
         val = G.gen_value(rng, 1)
       ops.append({'op': 'bind', 'scope': name, 'sel': 'gin.macro', 'arg': 'value', 'val': val,
